@@ -29,6 +29,10 @@ KWARGS = {
     "ins": INS,                                                           # save_log_q=False: densities re-derived
     "ins_logq": dict(INS, save_log_q=True),
     "ins_chain": dict(INS, max_iteration=4),
+    "ins_legs": dict(INS, max_iteration=6, min_iteration=5),
+    # SIGTERM delivered at a likelihood call inside FlowProposal.populate: the handler's checkpoint has populating=True
+    "std_signal_a": dict(STD, signal_handling=True, checkpoint_interval=100000),
+    "std_signal_b": dict(STD, signal_handling=True, checkpoint_interval=100000),
     # many stored samples (15 000 per store after two iterations; the density table is re-derived on resume)
     "ins_big": dict(INS, nlive=5000, min_samples=500, max_iteration=2, training_config={"max_epochs": 10}),
     "ins_huge": dict(INS, nlive=20000, min_samples=2000, max_iteration=3, training_config={"max_epochs": 5}),
@@ -112,6 +116,16 @@ def translate(chk):
     except Exception as e:
         status["log_prob_batching"] = f"declined: translator error {type(e).__name__}: {e}"
         chk._bplan = None
+    try:
+        seff, sites = t.resume_seeding()
+        status["resume_seeding"] = f"translated: {seff}" + (f" sites: {sites}" if sites else " (the resume path does not touch the generators)")
+        chk._seff = seff
+    except Declined as e:
+        status["resume_seeding"] = f"declined: {e}"
+        chk._seff = None
+    except Exception as e:
+        status["resume_seeding"] = f"declined: translator error {type(e).__name__}: {e}"
+        chk._seff = None
     chk.translator = status
     return sks, infos, effs, unclassified, known, prol
 
@@ -150,11 +164,16 @@ def today(chk, sks, effs, unclassified, prol=None):
         txt += ("Lemma today_bplan_property : forall (A B : Type) (d : A) (f : A -> B) (garbage : nat -> B) (l : list A),\n"
                 "  batch_eval d f garbage (plan_of bplan_now (List.length l)) l = map f l.\n"
                 "Proof. exact (bplan_sound bplan_now today_bplan). Qed.\n")
+    if getattr(chk, "_seff", None) is not None:
+        txt += f"Definition seeding_now : list seff := {chk._seff}.\n"
+        txt += "Lemma today_seeding : seeding_ok seeding_now = true.\nProof. vm_compute. reflexivity. Qed.\n"
+        txt += ("Lemma today_seeding_property : forall seed legs, NoDup (map fst legs) -> NoDup (run_draws seeding_now seed legs).\n"
+                "Proof. exact (seeding_sound seeding_now today_seeding). Qed.\n")
     ok, _, err = chk.coq_run("today", txt)
     chk.oblige("today: fields_ok on the regenerated skeletons of NestedSampler, ImportanceNestedSampler, FlowProposal, "
                "AugmentedFlowProposal, RejectionProposal, ImportanceFlowProposal, ImportanceFlowModel, OrderedSamples, "
                "Model; counter_ok on resume_from_pickled_sampler; prologue_ok on the loop prologue of nested_sampling_loop "
-               "(check_resume before the first update_state); bplan_ok on the batching of log_prob_all / log_prob_ith; "
+               "(check_resume before the first update_state); bplan_ok on the batching of log_prob_all / log_prob_ith; seeding_ok on the resume path (no seeding); "
                "instantiated roundtrip / counter / entry-checkpoint / batched re-derivation theorems",
                "today", ok, err)
     if not ok:
@@ -181,7 +200,13 @@ def gen_jobs(chk):
         [{"id": "chain-std", "kind": "chain", "sampler": "std_chain", "kills": [180, 250], "pre_evals": 3}],
         [{"id": "std_pool", "kind": "snapshots", "sampler": "std_pool", "select": {"max": 6} if q else {"stride": 6}}],
         [{"id": "std_entry", "kind": "regen", "sampler": "std_entry", "select": {"max": 2 if q else 8}}],
-        [{"id": "ins_big", "kind": "snapshots", "sampler": "ins_big", "select": {"first": 5}}],
+        [{"id": "ins_big", "kind": "snapshots", "sampler": "ins_big", "select": {"first": 5}},
+         {"id": "std_signal_a", "kind": "snapshots", "sampler": "std_signal_a", "signal_at": 420}],
+        # runs resumed four times: kills in the uninformed phase (the proposal draws straight from numpy.random) and in
+        # the flow phase
+        [{"id": "chain-std-legs", "kind": "chain", "sampler": "std_chain", "kills": [130, 40, 60, 300, 120], "pre_evals": 2},
+         {"id": "std_signal_b", "kind": "snapshots", "sampler": "std_signal_b", "signal_at": 540}],
+        [{"id": "chain-ins-legs", "kind": "chain", "sampler": "ins_legs", "kills": [401, 210, 210, 210], "pre_evals": 1}],
     ]
     if not q:
         shards += [
@@ -302,6 +327,11 @@ def inv_problems(inv, ref):
         for k in ("sorted", "live_sorted", "live_above", "finite_logZ"):
             if not inv[k]:
                 out.append(f"{k} is false")
+        if inv.get("n_distinct") is not None and inv["n_distinct"] != inv["n_points"]:
+            out.append(f"{inv['n_points'] - inv['n_distinct']} of the {inv['n_points']} accepted points (nested + live) are exact "
+                       f"duplicates of another one")
+        if inv.get("strictly_increasing") is False and (ref is None or ref.get("strictly_increasing", True)):
+            out.append("the nested log-likelihoods are not strictly increasing (an uninterrupted run's are)")
         if ref is not None and off(inv) != off(ref) and inv["finalised"] == ref["finalised"]:
             out.append(f"counts (nested-it, insertion-it, logLs-it, nlive) = {off(inv)}, uninterrupted run has {off(ref)}")
         if ref is None and off(inv)[:3] != (0, 0, 1) and not inv["finalised"]:
@@ -309,6 +339,8 @@ def inv_problems(inv, ref):
     else:
         if not inv["sorted"] or not inv["finite_logZ"]:
             out.append("samples unsorted or evidence not finite")
+        if inv.get("n_distinct") is not None and inv["n_distinct"] != inv["n_samples"]:
+            out.append(f"{inv['n_samples'] - inv['n_distinct']} of the {inv['n_samples']} samples are exact duplicates")
         if not (inv["n_samples"] == inv["counts_total"] == inv["state_n"]):
             out.append(f"sample accounting: samples {inv['n_samples']}, counts {inv['counts_total']}, state {inv['state_n']}")
         if inv["log_q_shape"] != [inv["n_samples"], inv["n_models"] + 1]:
@@ -419,7 +451,10 @@ def run(chk):
             continue
         if r["kind"] == "snapshots":
             sampler = r["id"]
-            ref_inv[family(sampler) if sampler in ("std", "ins") else sampler] = r["final"]["invariants"]
+            if r.get("final"):
+                ref_inv[family(sampler) if sampler in ("std", "ins") else sampler] = r["final"]["invariants"]
+                for prob in inv_problems(r["final"]["invariants"], None):
+                    chk.oblige(f"uninterrupted run {sampler} satisfies the invariants asked of resumed runs", "harness", False, prob)
             chk.count(f"{sampler}:checkpoints_written", r["n_checkpoints"])
             for c in r["cases"]:
                 chk.evaluations += 1
@@ -434,12 +469,27 @@ def run(chk):
                 a = c["after"]
                 replay = {"job": {"id": r["id"], "kind": "snapshots", "sampler": sampler, "select": {"only": [c["n"]]}},
                           "kwargs": KWARGS[sampler], "meta": m}
+                if r.get("signal_at"):
+                    replay["job"]["signal_at"] = r["signal_at"]
+                    replay["job"].pop("select")
                 if "ready" not in a:
                     chk.fail(f"C12:{sampler}:resume-raised:{a.get('resume_error')}",
                              f"{sampler} checkpoint {c['n']} (iteration {m['iteration']}): FlowSampler(resume=True) failed: "
                              f"{a.get('resume_error')}: {a.get('msg', '')[:200]}", dict(replay, expect="resume-raised"))
                     continue
                 for key, dv in a.get("derived", {}).items():
+                    if key.startswith("probe:"):
+                        # what the restored flow proposal does with fixed live points vs what the writer's did
+                        chk.count(f"{sampler}:probes" + (":written-inside-populate" if m.get("populating") else ""))
+                        if not dv.get("close"):
+                            chk.fail(f"C12:{sampler}:{key}:restored-proposal-acts-differently",
+                                     f"{sampler} checkpoint {c['n']} (iteration {m['iteration']}, populating={m.get('populating')}, "
+                                     f"{m.get('training_count')} trainings): {key[6:]} of 8 fixed live points computed by the resumed "
+                                     f"proposal differs from what the proposal that wrote the checkpoint computed (max abs "
+                                     f"difference {dv.get('max_abs')})", dict(replay, expect="probe"))
+                        else:
+                            chk.oracle_validations += 1
+                        continue
                     chk.count(f"{sampler}:log_q rows " + ("> 50000" if dv.get("rows", 0) > 50000 else "> 10000"
                                                           if dv.get("rows", 0) > 10000 else "<= 10000"))
                     if dv.get("independent_close") is False or dv.get("independent_error"):
@@ -618,6 +668,14 @@ def replay(data):
             print(json.dumps({"checkpoint": c["n"], "meta": c["meta"], "resume": a}, indent=1)[:1500])
             print(f"VIOLATION property={PID} replay=(replayed) resume raised {a.get('resume_error')}")
             rc = 1
+            continue
+        if rp.get("expect") == "probe":
+            bad = {k: v for k, v in a.get("derived", {}).items() if k.startswith("probe:") and not v.get("close")}
+            print(json.dumps({"checkpoint": c["n"], "meta": c["meta"], "probes": {k: v for k, v in a.get("derived", {}).items()
+                                                                                   if k.startswith("probe:")}})[:1500])
+            if bad:
+                print(f"VIOLATION property={PID} replay=(replayed) the restored proposal acts differently: {sorted(bad)}")
+                rc = 1
             continue
         if rp.get("expect") == "independent":
             bad = {k: v for k, v in a.get("derived", {}).items() if v.get("independent_close") is False or v.get("independent_error")
